@@ -151,6 +151,8 @@ HasInfSide(ev, nm) == \E i \in 1..Len(ev.sdom) : ev.sdom[i].name = nm /\ (ev.sdo
 BadErr(ev) ==
    If(ev.err.kind \notin ErrKinds, "unstructured error")
    \cup If(ev.err.kind = "VarAlreadyDeclared" /\ ev.err.name \notin Declared(ev), "auxiliary clash without a user variable of that name")
+   \cup If(ev.err.kind = "NonFiniteConstant" /\ ev.srcfinite,
+           "non-finite constant although every source constant is finite: an underivable bound must be reported as missing bounds")
    \cup If(ev.err.kind = "MissingFiniteBounds" /\
            (\E v \in Rng(ev.err.variables) : v \notin Rng(ev.err.exprvars) \/ (v \in Declared(ev) /\ ~HasInfSide(ev, v))),
            "missing-bounds error names a variable that is bounded or not in the expression")
@@ -168,7 +170,13 @@ Stat(ev) == LET es == Envs(ev)
             IN  PrintT(<<"STAT", ev.id, Cardinality(es), nf,
                          Len(BoolAux(ev)), Len(ContAux(ev))>>)
 
+\* C10 (twins): two spellings of one model are accepted or rejected together
+TwinCheck(ev) ==
+   IF (ev.outa = "ok") = (ev.outb = "ok") THEN PrintT(<<"TWIN", ev.id, ev.outa, ev.outb>>)
+   ELSE PrintT(<<"REJECT", "C10", ev.id, "one spelling is rejected (" \o ev.erra \o ev.errb \o ") and the other accepted", "">>)
+
 Check(ev) ==
+   IF "twin" \in DOMAIN ev THEN TwinCheck(ev) ELSE
    /\ (Has("C08") => CheckWF(ev))
    /\ IF ~Judgeable(ev) THEN PrintT(<<"SKIP", ev.id, ev.out>>)
       ELSE /\ (Has("C01") => Report("C01", ev, BadFeas(ev), "projection"))
